@@ -57,8 +57,14 @@ Example C06_example :
   map p_fw (ptasks (step s (LOp (OpCancel [1])))) = [Some FPending; Some FCancelled].
 Proof. vm_compute. repeat split; reflexivity. Qed.
 
+(** Monitor soundness: the extracted monitor for C06 (all four clauses) never rejects a stream of the model; the P-self hypothesis is necessary (PMonSound_C06.mon_C06_needs_P_self: the D11 run is rejected by clause C06_delivered). *)
+From TP Require PMonSound_C06 PObs PMon.
+Theorem mon_sound : forall c tr, clean (run c tr) -> taint_self (run c tr) = false -> PMon.ok_C06 c (PObs.observe c tr) = true.
+Proof. exact PMonSound_C06.mon_C06_sound. Qed.
+
 Print Assumptions C06.
 Print Assumptions C06_delivered.
 Print Assumptions C06_no_spurious.
 Print Assumptions C06_only_by_cancel.
 Print Assumptions C06_mark_consumed.
+Print Assumptions mon_sound.
